@@ -537,6 +537,7 @@ class IteratorQueue(IterableQueue[_ValueT]):
     self._returned = []
     self._exception = None
     self._exhausted = False
+    self._stop_requested = False
     self._max_enqueuer = max_enqueuer
     self._enqueue_start = 0
     self._enqueue_stop = 0
@@ -581,7 +582,7 @@ class IteratorQueue(IterableQueue[_ValueT]):
   @property
   def enqueue_done(self) -> bool:
     """Indicates whether there is ongoing enqueuer."""
-    if self._exception:
+    if self._exception or self._stop_requested:
       return True
     # If max_enqueuer is not set, it means the no enqueuer has started yet.
     if not self._max_enqueuer:
@@ -772,6 +773,8 @@ class IteratorQueue(IterableQueue[_ValueT]):
     """
     exc = exc or StopIteration()
     with self._states_lock:
+      # The enqueuers that start after the stop must not resume the enqueueing.
+      self._stop_requested = True
       self._enqueue_stop = self._enqueue_start = self._max_enqueuer
       if not is_stop_iteration(exc):
         self._exception = exc
